@@ -9,6 +9,8 @@ selection theorems of C02 (`C02_union_result_spec`, `C02_union_perm_invariant`, 
 are re-exported below for the record.  Tie: `./check C13`.
 -/
 import DSProofs.Lemmas.Tuple
+import DSProofs.Lemmas.TupleUnion
+import DSProofs.Lemmas.TupleInter
 import DSProofs.Props.C02
 namespace DS.Theta
 
@@ -88,6 +90,34 @@ theorem C13_tuple_union_keys (c : Cfg) (pol : σ → σ → σ) (sh : Nat) (sks 
       (unionResult c u ord sh).theta (keys (unionResult c u ord sh).ents) :=
   ((C02_union_result_spec c pol sh sks hw u hu ord).1 hne).1
 
+/-- **Union summaries.**  The summary a union result attaches to a retained key is the union policy folded, in
+presentation order, over the summaries of ALL the (non-empty) inputs that hold the key: the first one is copied,
+every later one is merged in as `policy(accumulated, incoming)`. -/
+theorem C13_union_summary_fold (c : Cfg) (pol : σ → σ → σ) (sh : Nat) (sks : List (Compact σ))
+    (hw : ∀ sk, sk ∈ sks → WFop sk) (u : Union σ) (hu : unionFold c pol sh (unionInit c) sks = some u) (ord : Bool)
+    (k : Nat) (v : σ) (h : (k, v) ∈ (unionResult c u ord sh).ents) :
+    foldSums pol (sumsOffered k sks) = some v := by
+  have h0 : SState c pol [] c.theta0 (fun _ => ([] : List σ)) (unionInit c : Union σ) :=
+    ⟨ustate_init c, fun _ _ => rfl, by intro k v _ hv; simp [unionInit, init, lookup] at hv⟩
+  have hf := sstate_fold c pol sh sks [] c.theta0 (fun _ => []) (unionInit c) u h0 hw hu
+  have hi := hf.us.inv
+  have hm := union_result_mem_table c u ord sh hi.sorted (fun x hx => (hi.sub x hx).2) (k, v) h
+  have hl := lookup_of_mem u.tbl.ents hi.sorted k v hm.1
+  have := hf.sinv k v hm.2 hl
+  simpa using this
+
+/-- **Intersection summaries.**  The summary an intersection attaches to a retained key is the policy folded, in
+presentation order, over the summaries of ALL inputs (every input holds the key): the first input's summary is
+copied, every later one is merged in as `policy(accumulated, incoming)`. -/
+theorem C13_inter_summary_fold (pol : σ → σ → σ) (sh : Nat) (sks : List (Compact σ))
+    (hw : ∀ sk, sk ∈ sks → WFop sk) (i : Inter σ) (hi : interFold pol sh interInit sks = some i)
+    (k : Nat) (v : σ) (h : (k, v) ∈ i.ents) :
+    foldSums pol (sumsAll k sks) = some v := by
+  have := isum_fold pol sh sks [] interInit i iinv_init
+    (by intro k v hv; simp [interInit, lookup] at hv) (fun s hs => by simp at hs) hw hi
+  simp only [List.nil_append] at this
+  exact this.2 k v (lookup_of_mem i.ents this.1.sorted k v h)
+
 /-- A-not-B keeps A's summaries untouched: every entry of the result is an entry of A. -/
 theorem C13_anotb_keeps_a_summaries (sh : Nat) (a b r : Compact σ) (ord : Bool) (h : aNotB sh a b ord = some r) :
     ∀ e, e ∈ r.ents → e ∈ a.ents := by
@@ -116,5 +146,13 @@ def exT : List (TOp Int) :=
   [.upd 50 1, .upd 20 2, .upd 50 3, .upd 0 9, .upd 70 4, .upd 10 5, .upd 60 6, .upd 20 7, .trim]
 example : (run exCfgT (exT.map (TOp.toOp ([] : List Int) (fun (s : List Int) (v : Int) => s ++ [v])))).ents = [(10, [5]), (20, [2, 7])] := by decide
 example : valsOf exT 20 = [2, 7] ∧ valsOf exT 50 = [1, 3] := by decide
+/-- two inputs holding key 20 with list summaries: the union concatenates them in presentation order -/
+def exU1 : Compact (List Int) := { theta := MAX_THETA, ents := [(20, [1, 2]), (30, [3])], isEmpty := false, ordered := true, seedHash := 7 }
+def exU2 : Compact (List Int) := { theta := MAX_THETA, ents := [(20, [9])], isEmpty := false, ordered := true, seedHash := 7 }
+def exCfgU : Cfg := { lgNom := 2, lgRf := 0, theta0 := MAX_THETA, lgStart := 3 }
+example : (unionFold exCfgU (fun (a b : List Int) => a ++ b) 7 (unionInit exCfgU) [exU1, exU2]).map
+    (fun u => (unionResult exCfgU u true 7).ents) = some [(20, [1, 2, 9]), (30, [3])] := by decide
+example : foldSums (fun (a b : List Int) => a ++ b) (sumsOffered 20 [exU1, exU2]) = some [1, 2, 9] := by decide
+example : (interFold (fun (a b : List Int) => a ++ b) 7 interInit [exU1, exU2]).map (fun i => i.ents) = some [(20, [1, 2, 9])] := by decide
 
 end DS.Theta
